@@ -8,7 +8,12 @@ EXTENDS TLC, Json
 VARIABLE e
 OperandKinds == {"int", "real", "str", "var", "lambda", "funref", "new", "call", "field", "cond", "bool", "char"}
 Ops == {"==", "!=", "&&", "||", ">", "<="}
-Init == e \in [l : OperandKinds, r : OperandKinds, op : Ops]
+\* nested shapes (thorough tier):  ((L op M) op2 R)  and  (L op (M op2 R))  over a smaller alphabet
+CONSTANT Nested
+SmallKinds == {"int", "str", "var", "lambda", "funref", "call"}
+SmallOps == {"==", "&&", "<="}
+Init == \/ e \in [l : OperandKinds, r : OperandKinds, op : Ops]
+        \/ Nested /\ e \in [l : SmallKinds, m : SmallKinds, r : SmallKinds, op : SmallOps, op2 : SmallOps, nest : {"left", "right"}]
 Next == UNCHANGED e
 Emit == PrintT(ToJson(e))
 =============================================================================
